@@ -109,3 +109,10 @@ Theorem c05_challenge_switch_pinned :
      s "default => return """", fmt.Errorf(""unknown challenge method: %v"", method)"].
 Proof. vm_compute. reflexivity. Qed.
 Print Assumptions c05_challenge_switch_pinned.
+
+(* the tags binding every option (the OIDC switches among them) to its flag and configuration key, REGENERATED from
+   pkg/apis/options on this run, are regular: insecure-oidc-skip-nonce is read by the nonce switch and by nothing else *)
+Theorem c05_option_tags_regular :
+  Wiring.option_tags_irregular = [] /\ Wiring.option_flags_unregistered = [] /\ Wiring.option_flags_untagged = [].
+Proof. repeat split; vm_compute; reflexivity. Qed.
+Print Assumptions c05_option_tags_regular.
